@@ -193,3 +193,22 @@ def seq_ite(c, a, b):
                     z3.If(c, to_int_term(a.base), to_int_term(b.base)))
     return SeqV(z3.If(c, to_int_term(a.length), to_int_term(b.length)), el,
                 [z3.If(c, x, y) for x, y in zip(a.arrs, b.arrs)], a.kind, a.base)
+
+
+def seq_splice(s, a, b, v):
+    """s[a:b] = v with 0 <= a <= b <= len(s): a fresh array with a conservative definition"""
+    from . import ops
+    j = z3.Int(fresh_name("j"))
+    a_t = to_int_term(a) if not isinstance(a, int) else z3.IntVal(a)
+    b_t = to_int_term(b) if not isinstance(b, int) else z3.IntVal(b)
+    n_v = to_int_term(v.length) if not isinstance(v.length, int) else z3.IntVal(v.length)
+    arrs = []
+    for x, y in zip(s.arrs, v.arrs):
+        r = z3.Array(fresh_name("splice"), z3.IntSort(), x.sort().range())
+        ops.define(r.decl().name(), z3.ForAll([j], z3.Select(r, j) == z3.If(
+            j < a_t, z3.Select(x, _off(s.base, j)),
+            z3.If(j < a_t + n_v, z3.Select(y, _off(v.base, j - a_t)), z3.Select(x, _off(s.base, j - n_v + (b_t - a_t))))),
+            patterns=[z3.Select(r, j)]))
+        arrs.append(r)
+    ln = (s.length if isinstance(s.length, int) else to_int_term(s.length)) - (b_t - a_t) + n_v
+    return SeqV(z3.simplify(ln) if is_z3(ln) else ln, s.elem, arrs, s.kind, 0)
